@@ -52,12 +52,15 @@ def main():
     ap = argparse.ArgumentParser()
     ap.add_argument("ids", nargs="*")
     ap.add_argument("--seeded", action="store_true")
+    ap.add_argument("--only-seeded", action="store_true")
     ap.add_argument("--tier", default="quick")
     ap.add_argument("--parallel", type=int, default=2)
     a = ap.parse_args()
     jobs = []
     ids = [i.upper() for i in a.ids]
-    for d in sorted(glob.glob(os.path.join(ROOT, "selftest", "C*"))):
+    if a.only_seeded:
+        a.seeded = True
+    for d in ([] if a.only_seeded else sorted(glob.glob(os.path.join(ROOT, "selftest", "C*")))):
         prop = os.path.basename(d)
         if ids and prop not in ids:
             continue
